@@ -23,18 +23,23 @@
 (* stream 1, 2, 3, ...  TLC -simulate produces programs with their         *)
 (* expected output streams; the harness prints each as .basm text, runs    *)
 (* the real assembler and the real simulator and compares the streams.     *)
+(*                                                                         *)
+(* Two interpreters run side by side on the same program: ref, the meaning *)
+(* of the source, and asc, the meaning AS CODED in the pinned tree, which  *)
+(* differs in the documented deviations (Deviation...): only ref decides;  *)
+(* asc tells a known finding from a new one.                               *)
 (***************************************************************************)
 EXTENDS Integers, Sequences, FiniteSets, TLC
 
-CONSTANTS RSize, Len0, Budget, NOut, EntryAnywhere
+CONSTANTS RSize, Len0, Budget, NOut, EntryAnywhere, DirectiveAnywhere, MacroHeavy
 
 Mod == 2 ^ RSize
 Regs == 0 .. 3
 Lits == {0, 1, 2, 5, Mod - 1, Mod \div 2 + 3}
 Notations == {"dec", "0x", "0b", "0d", "0u"}
 
-VARIABLES phase, prog, entry, pc, regs, outs, nin, steps, lastio
-vars == <<phase, prog, entry, pc, regs, outs, nin, steps, lastio>>
+VARIABLES phase, prog, entry, epos, lbd, ref, asc, steps, lastio
+vars == <<phase, prog, entry, epos, lbd, ref, asc, steps, lastio>>
 
 L(op, a, b, t, nt) == [op |-> op, a |-> a, b |-> b, t |-> t, nt |-> nt]
 
@@ -50,48 +55,87 @@ Jumps == {L("j", 0, 0, t, "") : t \in 0 .. Len0 - 1} \cup {L("jz", a, 0, t, "") 
 Sends == {L("send", o, b, 0, "") : o \in 0 .. NOut - 1, b \in Regs}
 Recvs == {L("recv", a, 0, 0, "") : a \in Regs}
 
+M0 == [pc |-> 0, regs |-> [r \in Regs |-> 0], outs |-> <<>>, nin |-> 0]
+
 Init ==
   /\ phase = "build" /\ prog = <<>> /\ entry \in (IF EntryAnywhere THEN 0 .. Len0 - 1 ELSE {0})
-  /\ pc = 0 /\ regs = [r \in Regs |-> 0] /\ outs = <<>> /\ nin = 0 /\ steps = 0 /\ lastio = -10
+  /\ epos \in (IF DirectiveAnywhere THEN 0 .. Len0 - 1 ELSE {0})     \* the entry directive is written before line epos
+  /\ lbd \in (IF DirectiveAnywhere THEN BOOLEAN ELSE {FALSE})         \* the label of line epos is written BEFORE the directive
+  /\ ref = M0 /\ asc = M0 /\ steps = 0 /\ lastio = -10
 
+Add(l, io) ==
+  /\ phase = "build" /\ Len(prog) < Len0 - 1
+  /\ prog' = Append(prog, l) /\ lastio' = (IF io THEN Len(prog) ELSE lastio)
+  /\ UNCHANGED <<phase, entry, epos, lbd, ref, asc, steps>>
+IoOK == Len(prog) - lastio >= 3
+BuildPlain == \E l \in Plain : Add(l, FALSE)
+BuildMacro == Add(L("twice", 0, 0, 0, ""), FALSE)
+BuildJump == \E l \in Jumps : Add(l, FALSE)
+BuildSend == \E l \in Sends : Add(l, TRUE)
+BuildRecv == \E l \in Recvs : Add(l, TRUE)
+\* TLC -simulate chooses uniformly among the sub-actions it can split Next into (it splits a
+\* top-level \E over a constant set, but not below an IF): the outer choice w draws the KIND of the
+\* next line with fixed odds, whatever the number of lines of each kind
 Build ==
-  /\ phase = "build" /\ Len(prog) < Len0
-  /\ \E w \in 1 .. 6 :
-       LET i == Len(prog)
-           ioOK == i - lastio >= 3
-       IN  \/ w \in {1, 2, 3} /\ \E l \in Plain : prog' = Append(prog, l) /\ lastio' = lastio
-           \/ w = 4 /\ \E l \in Jumps : prog' = Append(prog, l) /\ lastio' = lastio
-           \/ w = 5 /\ ioOK /\ \E l \in Sends : prog' = Append(prog, l) /\ lastio' = i
-           \/ w = 6 /\ ioOK /\ \E l \in Recvs : prog' = Append(prog, l) /\ lastio' = i
-  /\ UNCHANGED <<phase, entry, pc, regs, outs, nin, steps>>
+  \E w \in 1 .. 8 :
+    IF w <= 2 THEN BuildPlain
+    ELSE IF w = 3 THEN (IF MacroHeavy THEN BuildMacro ELSE BuildPlain)
+    ELSE IF w = 4 THEN BuildJump
+    ELSE IF w <= 6 THEN (IF IoOK THEN BuildSend ELSE BuildPlain)
+    ELSE IF w = 7 THEN (IF IoOK THEN BuildRecv ELSE BuildJump)
+    ELSE BuildPlain
+
+\* the last line is an unconditional jump: a program never runs off its end
+Close ==
+  /\ phase = "build" /\ Len(prog) = Len0 - 1
+  /\ \E t \in 0 .. Len0 - 1 : prog' = Append(prog, L("j", 0, 0, t, ""))
+  /\ UNCHANGED <<phase, entry, epos, lbd, ref, asc, steps, lastio>>
+
+\* ---- deviations of the pinned tree (known findings of C05) ------------------------------------
+\* the entry directive is parsed, checked and removed, and its position recorded in the section's
+\* metadata, but nothing reads it: the processor starts at the first line of the section
+AsCodedEntry == 0
 
 Start ==
   /\ phase = "build" /\ Len(prog) = Len0
-  /\ phase' = "run" /\ pc' = entry
-  /\ UNCHANGED <<prog, entry, regs, outs, nin, steps, lastio>>
+  /\ phase' = "run" /\ ref' = [ref EXCEPT !.pc = entry] /\ asc' = [asc EXCEPT !.pc = AsCodedEntry]
+  /\ UNCHANGED <<prog, entry, epos, lbd, steps, lastio>>
 
-\* one source line executed
+\* one source line executed by an interpreter state m
+Step(m) ==
+  LET l == prog[m.pc + 1]
+      regs == m.regs
+  IN  [regs |-> CASE l.op = "clr" -> [regs EXCEPT ![l.a] = 0]
+                  [] l.op = "inc" -> [regs EXCEPT ![l.a] = (@ + 1) % Mod]
+                  [] l.op = "dec" -> [regs EXCEPT ![l.a] = (@ + Mod - 1) % Mod]
+                  [] l.op = "add" -> [regs EXCEPT ![l.a] = (@ + regs[l.b]) % Mod]
+                  [] l.op \in {"cpy", "movrr"} -> [regs EXCEPT ![l.a] = regs[l.b]]
+                  [] l.op \in {"rset", "movri"} -> [regs EXCEPT ![l.a] = l.b]
+                  [] l.op = "twice" -> [regs EXCEPT ![1] = (@ + 2) % Mod]
+                  [] l.op = "recv" -> [regs EXCEPT ![l.a] = (m.nin + 1) % Mod]
+                  [] OTHER -> regs,
+       nin  |-> IF l.op = "recv" THEN m.nin + 1 ELSE m.nin,
+       outs |-> IF l.op = "send" THEN Append(m.outs, <<l.a, regs[l.b]>>) ELSE m.outs,
+       pc   |-> CASE l.op = "j" -> l.t
+                  [] l.op = "jz" -> (IF regs[l.a] = 0 THEN l.t ELSE m.pc + 1)
+                  [] OTHER -> m.pc + 1]
+
 Exec ==
-  /\ phase = "run" /\ steps < Budget /\ pc < Len0
+  /\ phase = "run" /\ steps < Budget
   /\ steps' = steps + 1
-  /\ LET l == prog[pc + 1]
-     IN  /\ regs' = CASE l.op = "clr" -> [regs EXCEPT ![l.a] = 0]
-                      [] l.op = "inc" -> [regs EXCEPT ![l.a] = (@ + 1) % Mod]
-                      [] l.op = "dec" -> [regs EXCEPT ![l.a] = (@ + Mod - 1) % Mod]
-                      [] l.op = "add" -> [regs EXCEPT ![l.a] = (@ + regs[l.b]) % Mod]
-                      [] l.op \in {"cpy", "movrr"} -> [regs EXCEPT ![l.a] = regs[l.b]]
-                      [] l.op \in {"rset", "movri"} -> [regs EXCEPT ![l.a] = l.b]
-                      [] l.op = "twice" -> [regs EXCEPT ![1] = (@ + 2) % Mod]
-                      [] l.op = "recv" -> [regs EXCEPT ![l.a] = (nin + 1) % Mod]
-                      [] OTHER -> regs
-         /\ nin' = IF l.op = "recv" THEN nin + 1 ELSE nin
-         /\ outs' = IF l.op = "send" THEN Append(outs, <<l.a, regs[l.b]>>) ELSE outs
-         /\ pc' = CASE l.op = "j" -> l.t
-                    [] l.op = "jz" -> (IF regs[l.a] = 0 THEN l.t ELSE pc + 1)
-                    [] OTHER -> pc + 1
-  /\ UNCHANGED <<phase, prog, entry, lastio>>
+  /\ ref' = Step(ref) /\ asc' = Step(asc)
+  /\ UNCHANGED <<phase, prog, entry, epos, lbd, lastio>>
 
-Next == Build \/ Start \/ Exec
+Next == \E w \in 1 .. 8 :
+          IF phase = "build" /\ Len(prog) < Len0 - 1
+          THEN (IF w <= 2 THEN BuildPlain
+                ELSE IF w = 3 THEN (IF MacroHeavy THEN BuildMacro ELSE BuildPlain)
+                ELSE IF w = 4 THEN BuildJump
+                ELSE IF w <= 6 THEN (IF IoOK THEN BuildSend ELSE BuildPlain)
+                ELSE IF w = 7 THEN (IF IoOK THEN BuildRecv ELSE BuildJump)
+                ELSE BuildPlain)
+          ELSE (w = 1 /\ (Close \/ Start \/ Exec))
 Spec == Init /\ [][Next]_vars
-TypeOK == \A r \in Regs : regs[r] \in 0 .. Mod - 1
+TypeOK == /\ \A r \in Regs : ref.regs[r] \in 0 .. Mod - 1
+          /\ ref.pc \in 0 .. Len0 - 1 /\ asc.pc \in 0 .. Len0 - 1
 =============================================================================
